@@ -213,10 +213,24 @@ def gen_flag_case(rng, tier):
     return c
 
 
+def gen_flag_sep_case(rng, tier):
+    """a separator that is not ASCII, given as the -separator flag: the first CHARACTER of the flag separates"""
+    c = gen_flag_case(rng, tier)
+    im = c["imports"][0]
+    old, new = im["sep"], rng.choice(["\u00a7", "\u00b6", "\u2016", "\u00e9"])
+    lines = []
+    for l in im["lines"]:
+        t = bytes.fromhex(l).decode("utf-8", "replace")
+        lines.append(t.replace(old, new).encode("utf-8").hex())
+    im["lines"], im["sep"], im["mode"] = lines, new, im["mode"] + "/nonascii-sep"
+    return c
+
+
 def generate(rng, tier):
     n = 400 if tier == "quick" else 4000
     nf = 60 if tier == "quick" else 600
-    return [gen_case(rng, tier) for _ in range(n)] + [gen_flag_case(rng, tier) for _ in range(nf)]
+    return [gen_case(rng, tier) for _ in range(n)] + [gen_flag_case(rng, tier) for _ in range(nf)] + \
+           [gen_flag_sep_case(rng, tier) for _ in range(nf // 4)]
 
 
 # ---------------------------------------------------------------------------------------------
